@@ -60,7 +60,9 @@ FullEnv(b, k) == [x \in Keys \cup Aliases |-> IF x \in Keys THEN AggEnv(b, k)[x]
 Keeps(b, k) == "having" \notin DOMAIN cfg \/ IsTrue(Eval(cfg.having, FullEnv(b, k)))
 Survivors(b) == {k \in Groups(b) : Keeps(b, k)}
 \* the batch a delivery belongs to: the first complete batch not yet settled in which HAVING keeps something (batches are delivered in order)
-Cand == {b \in (nout + 1)..NB : Len(rows) > Hi(b) /\ Survivors(b) # {}}
+\* (a tumbling batch is complete once a row beyond it has closed it; cfg.cnt = 1: batches cut by COUNT are complete with their last row)
+Closed(b) == IF "cnt" \in DOMAIN cfg /\ cfg.cnt = 1 THEN Len(rows) >= Hi(b) ELSE Len(rows) > Hi(b)
+Cand == {b \in (nout + 1)..NB : Closed(b) /\ Survivors(b) # {}}
 Cur == CHOOSE b \in Cand : \A c \in Cand : b <= c
 
 \* delivered row r shows group k
